@@ -218,6 +218,15 @@ def judge(ctx, iso3, options, which, cap, p):
         return
     # is it the recorded CBC finding (a sub-optimal solution reported as optimal) rather than the formulation?
     alt_base, alt_new = resolve_model_lp(c, tc, "to_humans"), resolve_model_lp(c2, tc2, "to_humans")
+
+    def related(a, b):
+        return (direction == "up" and b >= a - tol) or (direction == "down" and b <= a + tol) or (direction == "same" and abs(b - a) <= tol)
+    if alt_base is None or alt_new is None or not related(alt_base, alt_new):
+        # CBC with other settings does not always recover either: hand the model's own two programmes to HiGHS
+        from checks.c02 import own_programme
+        own_base, own_new = own_programme(c, tc, "to_humans")[0], own_programme(c2, tc2, "to_humans")[0]
+        if own_base is not None and own_new is not None and related(own_base, own_new):
+            alt_base, alt_new = own_base, own_new
     if alt_base is not None and alt_new is not None:
         ok = (direction == "up" and alt_new >= alt_base - tol) or (direction == "down" and alt_new <= alt_base + tol) or \
              (direction == "same" and abs(alt_new - alt_base) <= tol)
